@@ -401,7 +401,20 @@ func curReq(h *History, nsteps int) string {
 // ---- generator ------------------------------------------------------------------------------
 
 var safeNames = []string{"/x/a.yaml", "/x/ab.yaml", "/x/a.b.yaml", "/x/a b.yaml", "/x/w_c.yaml", "/y/a.yaml", "/x/job-1.yaml", "/x/a_c.yaml"}
-var unsafeNames = []string{"/x/a[1].yaml", "/x/q*.yaml", "/x/p?.yaml", "/x/a[.yaml", "/x/n20240101.10:00:00.yaml", "/x/m29990101.10:00:00.yaml", "/x/b\\c.yaml"}
+var unsafeNames = []string{"/x/a[1].yaml", "/x/q*.yaml", "/x/p?.yaml", "/x/a[.yaml", "/x/n20240101.10:00:00.yaml", "/x/m29990101.10:00:00.yaml", "/x/b\\c.yaml",
+	// a foreign suffix / .yml: jsondb.Rename works on util.AddYamlExtension of the name (fe0ec16), every other operation on the name itself
+	"/x/v1.2", "/x/c.yml"}
+
+// addYaml is util.AddYamlExtension as of fe0ec16, computed independently of /repo
+func addYaml(f string) string {
+	switch filepath.Ext(f) {
+	case ".yaml":
+		return f
+	case ".yml":
+		return strings.TrimSuffix(f, ".yml") + ".yaml"
+	}
+	return f + ".yaml"
+}
 
 // status sizes around the bufio (4096) and 64 KiB boundaries and well beyond ("arbitrary status payloads")
 var lens = []int{4095, 4096, 4097, 8192, 65535, 65536, 65537, 70000, 131100, 200000}
@@ -446,6 +459,12 @@ func gen(rng *vh.Rng, k int, maxops int) *History {
 	ps := perm(len(pool))
 	for i := 0; len(names) < nn; i++ {
 		names = append(names, pool[ps[i]])
+	}
+	// the name Rename really works on is a DAG of the history too (observed and hashed)
+	for _, d := range append([]string{}, names...) {
+		if y := addYaml(d); y != d {
+			names = append(names, y)
+		}
 	}
 	for _, d := range names {
 		h.Names = append(h.Names, Name{D: d, H: md5hex(d)})
